@@ -149,7 +149,8 @@ class Real:
     def window(self, a):
         T = self.cfg['T']
         ws, we = a.get('rws', a['ws']), a.get('rwe', a['we'])      # (rws, rwe): window given to the object when a wrapper clips it
-        st = None if (ws <= 1 and self.form == 'scalar') else self.user_time(self.step_time(ws))
+        # (form 'scalar' leaves out what coincides with the horizon; a start BEFORE the horizon is always given: it anchors a coarser frequency)
+        st = None if (ws == 1 and self.form == 'scalar') else self.user_time(self.step_time(ws))
         en = None if (we >= T + 1 and self.form == 'scalar') else self.user_time(self.step_time(we))
         return st, en
 
